@@ -489,3 +489,77 @@ def run(ctx):
         elif n < 2 and not same_unit:
             raise AnchorMissing("TimestampRecognizer: neither timestamp_opt sites (%d) nor a constructor for the written unit" % n)
 
+    with ctx.rule("C16.R9", "T5", "reset() returns a recogniser to the state its constructor gives it", floor=6) as r:
+        # Recognisers are reused: the element recogniser of a Vec is reset between elements, a decoder resets after every frame. The machine's state
+        # field must come back to what the constructor(s) choose - for recognisers of attribute bodies that is not the plain initial state.
+        def variants_of(b, operand):
+            out = set()
+            for s_ in b.sources(operand):
+                if s_[0] == "agg" and s_[2] is not None:
+                    out.add(s_[2])
+                if s_[0] == "const" and isinstance(s_[2], dict) and s_[2].get("variant"):
+                    out.add(s_[2]["variant"])
+            d = describe_operand(b, operand)
+            mm = re.match(r"^(?:[\w:]+::)?(\w+)\(\)$", d)
+            if mm:
+                out.add(mm.group(1))
+            return out
+        n = 0
+        # exception (one reason): the `variant(..)` constructors build the recogniser of an enum variant *after* its tag has been read; TaggedEnumRecognizer
+        # creates one per value through select_var and drops it on reset (checked here), so such a recogniser is never reset itself
+        te = [b for b in f.all_bodies() if b.meta.get("name") == "reset" and "TaggedEnumRecognizer" in b.defpath]
+        te_ok = len(te) == 1 and any(describe_place(te[0], p_) == "self.variant" and "None" in describe_rvalue(te[0], rv) for i, j, p_, rv, line in te[0].assigns())
+        r.check(te_ok, "TaggedEnumRecognizer/reset-drops-the-variant-recogniser", where(te[0]) if te else "-", "reset() drops the variant's recogniser (a new one is made for the next value)",
+                "TaggedEnumRecognizer::reset keeps the variant recogniser: it would have to be reset into its post-tag state")
+        cands = []
+        for e in f.index:
+            if "promoted" in e or e.get("name") != "reset" or "read::recognizer" not in e.get("def", ""):
+                continue
+            cands.append(e)
+        for e in cands:
+            rs = f.body(e)
+            sadt = rs.meta.get("self_adt")
+            if not sadt:
+                continue
+            try:
+                a = f.adt(sadt.split("recognizer::")[-1] if "recognizer::" in sadt else sadt)
+            except Exception:
+                continue
+            flds = [x[0] for v in a.get("variants", []) for x in v.get("fields", [])]
+            sf = [x for x in flds if x in ("state", "stage")]
+            if not sf:
+                continue
+            sf = sf[0]
+            reset_vals = set()
+            guarded = False
+            for i, j, p_, rv, line in rs.assigns():
+                if describe_place(rs, p_) == "self." + sf:
+                    if rv[0] == "use":
+                        reset_vals |= variants_of(rs, rv[1])
+                    elif rv[0] == "agg":
+                        reset_vals.add(rv[1].get("variant"))
+            ctor_vals = set()
+            nctor = 0
+            opaque = False
+            for b in f.all_bodies():
+                if "::tests" in b.defpath or b is rs:
+                    continue
+                if te_ok and b.meta.get("name") == "variant":
+                    continue
+                for i, j, p_, rv, line in b.assigns():
+                    if rv[0] == "agg" and rv[1].get("adt") == a["path"] and sf in rv[1].get("fields", []):
+                        nctor += 1
+                        vs = variants_of(b, rv[2][rv[1]["fields"].index(sf)])
+                        if not vs:
+                            opaque = True
+                        ctor_vals |= vs
+            if not ctor_vals or not reset_vals or opaque or not all(v[:1].isupper() for v in ctor_vals | reset_vals):
+                continue  # the initial state is not a literal variant (e.g. Default::default()): not judged
+            n += 1
+            ctx.saw(rs)
+            tag = sadt.split("::")[-1]
+            r.check(reset_vals == ctor_vals, "%s/reset-state=constructor-state" % tag, where(rs), "reset() puts `%s` back to %s, what the %d constructor site(s) choose" % (sf, sorted(reset_vals), nctor),
+                    "reset() sets `%s` to %s but the constructors start it in %s: a recogniser built for an attribute body (which starts after the body's opening) is reset into a state that expects the opening again, so the second value read with it is rejected although the model path accepts it" % (sf, sorted(reset_vals), sorted(ctor_vals)))
+        if n < 6:
+            raise AnchorMissing("expected the recognisers with a state field and a reset() (found %d)" % n)
+
